@@ -1,6 +1,7 @@
 package main
 
 import (
+	"bytes"
 	"fmt"
 	"go/types"
 	"math"
@@ -49,6 +50,9 @@ func (in *Interp) inRepo(fn *ssa.Function) bool {
 		} else {
 			return fn.Blocks != nil
 		}
+	}
+	if strings.HasSuffix(p.Pkg.Path(), "/io/protobuf") {
+		return false // generated protobuf bindings (reflection-driven registration): environment
 	}
 	if p.Pkg.Path() == hdf5Pkg {
 		return true // the in-memory model of the HDF5 library is executed like repository code
@@ -479,6 +483,43 @@ func (in *Interp) intrinsic(name string, fn *ssa.Function, args []Value) []Value
 		in.stash["json-response"] = args[1]
 		in.stashCount["json-response"]++
 		return []Value{&IfaceV{}}
+	case "flag.String", "flag.Bool", "flag.Int", "flag.Float64":
+		// command-line flags: a cell holding the declared default (harnesses may overwrite it)
+		var t types.Type
+		switch name {
+		case "flag.String":
+			t = types.Typ[types.String]
+		case "flag.Bool":
+			t = types.Typ[types.Bool]
+		case "flag.Int":
+			t = types.Typ[types.Int]
+		default:
+			t = types.Typ[types.Float64]
+		}
+		o := in.newObject(t, 1, "flag:"+strArg(args[0]))
+		o.slots[0] = args[1]
+		return []Value{&PtrV{obj: o}}
+	case "flag.BoolVar", "flag.StringVar", "flag.IntVar":
+		in.store(args[0].(*PtrV), args[2])
+		return nil
+	case "flag.Parse":
+		return nil
+	case "bytes.Index":
+		bs := func(v Value) []byte {
+			sl := v.(*SliceV)
+			out := make([]byte, sl.len)
+			for i := 0; i < sl.len; i++ {
+				t := in.readSlot(sl.obj, sl.off+i).(*Term)
+				if !t.IsConst() {
+					panic(unsupported{"bytes.Index on symbolic bytes"})
+				}
+				out[i] = byte(t.i.Int64())
+			}
+			return out
+		}
+		return []Value{in.ts.IntConst64(in.intSort(), int64(bytes.Index(bs(args[0]), bs(args[1]))))}
+	case "os.Remove":
+		return []Value{&IfaceV{}}
 	case "reflect.TypeOf":
 		iv := args[0].(*IfaceV)
 		ts := "<nil>"
@@ -522,7 +563,8 @@ func (in *Interp) intrinsic(name string, fn *ssa.Function, args []Value) []Value
 	case "os.Exit":
 		in.notes = appendNote(in.notes, "os.Exit reached")
 		panic(pathDead{"os.Exit"})
-	case "strings.Split", "strings.Join", "strings.Contains", "strings.HasPrefix", "strings.ToLower":
+	case "strings.Split", "strings.Join", "strings.Contains", "strings.HasPrefix", "strings.ToLower",
+		"strings.LastIndex", "strings.Index", "strings.HasSuffix", "strings.TrimPrefix", "strings.TrimSuffix", "strings.ToUpper", "strings.TrimSpace":
 		return in.stringsCall(name, args)
 	case "(*sync.RWMutex).Lock", "(*sync.RWMutex).Unlock", "(*sync.RWMutex).RLock", "(*sync.RWMutex).RUnlock",
 		"(*sync.Mutex).Lock", "(*sync.Mutex).Unlock":
@@ -539,91 +581,101 @@ func (in *Interp) intrinsic(name string, fn *ssa.Function, args []Value) []Value
 var errorStringType types.Type // set by the driver: *errors.errorString
 var reflectTypeType types.Type = types.Typ[types.String]
 
-func (in *Interp) sprint(name string, args []Value) Value {
-	// formatting is environment: concrete operands are rendered, symbolic ones opaque.
-	var sb strings.Builder
-	var walk func(v Value)
-	walk = func(v Value) {
-		switch x := v.(type) {
-		case StrV:
-			sb.WriteString(string(x))
-		case *Term:
-			if x.IsConst() {
-				switch {
-				case x.sort == SBool:
-					fmt.Fprint(&sb, x.b)
-				case x.sort == SInt || x.sort.IsBV():
-					sb.WriteString(signedOrInt(x).String())
-				case x.sort == SReal:
-					f, _ := x.r.Float64()
-					fmt.Fprint(&sb, f)
-				default:
-					if math.IsInf(x.f, 1) {
-						sb.WriteString("+Inf")
-					} else {
-						fmt.Fprint(&sb, x.f)
-					}
-				}
-			} else if x.sort.IsFP() {
-				// documented contract of fmt for floats: NaN, +Inf, -Inf; anything finite is opaque
-				ts := in.ts
-				nan := in.fpPred("fisnan", x)
-				inf := in.fpPred("fisinf", x)
-				neg := in.fpPred("fisneg", x)
-				cls := []struct {
-					c *Term
-					s string
-				}{{nan, "NaN"}, {ts.And(inf, ts.Not(neg)), "+Inf"}, {ts.And(inf, neg), "-Inf"}, {ts.And(ts.Not(nan), ts.Not(inf)), "<finite>"}}
-				var feas []int
-				for i, k := range cls {
-					if in.feasible(k.c) {
-						feas = append(feas, i)
-					}
-				}
-				if len(feas) == 0 {
-					panic(pathDead{"sprint: infeasible"})
-				}
-				pick := feas[in.chooseAmong(len(feas), fmt.Sprintf("fmt-float-class#%d", x.id))]
-				in.assume(cls[pick].c)
-				sb.WriteString(cls[pick].s)
-			} else {
-				sb.WriteString("<sym>")
+// goValue: a concrete engine value as a Go value for formatting; symbolic parts become "<sym>"
+func (in *Interp) goValue(v Value) interface{} {
+	switch x := v.(type) {
+	case StrV:
+		return string(x)
+	case *Term:
+		if x.IsConst() {
+			switch {
+			case x.sort == SBool:
+				return x.b
+			case x.sort == SInt || x.sort.IsBV():
+				return signedOrInt(x).Int64()
+			case x.sort == SReal:
+				f, _ := x.r.Float64()
+				return f
+			default:
+				return x.f
 			}
-		case *IfaceV:
-			if x.typ == nil {
-				sb.WriteString("<nil>")
-			} else {
-				walk(x.val)
-			}
-		case *SliceV:
-			sb.WriteString("[")
-			for i := 0; i < x.len; i++ {
-				if i > 0 {
-					sb.WriteString(" ")
-				}
-				if x.esz == 1 {
-					walk(x.obj.slots[x.off+i])
-				}
-			}
-			sb.WriteString("]")
-		default:
-			sb.WriteString("<v>")
 		}
+		if x.sort.IsFP() {
+			// documented contract of fmt for floats: NaN, +Inf, -Inf; anything finite is opaque
+			ts := in.ts
+			nan := in.fpPred("fisnan", x)
+			inf := in.fpPred("fisinf", x)
+			neg := in.fpPred("fisneg", x)
+			cls := []struct {
+				c *Term
+				s string
+			}{{nan, "NaN"}, {ts.And(inf, ts.Not(neg)), "+Inf"}, {ts.And(inf, neg), "-Inf"}, {ts.And(ts.Not(nan), ts.Not(inf)), "<finite>"}}
+			var feas []int
+			for i, k := range cls {
+				if in.feasible(k.c) {
+					feas = append(feas, i)
+				}
+			}
+			if len(feas) == 0 {
+				panic(pathDead{"sprint: infeasible"})
+			}
+			pick := feas[in.chooseAmong(len(feas), fmt.Sprintf("fmt-float-class#%d", x.id))]
+			in.assume(cls[pick].c)
+			return formatted(cls[pick].s)
+		}
+		return formatted("<sym>")
+	case *IfaceV:
+		if x.typ == nil {
+			return nil
+		}
+		if x.typ == errorStringType {
+			if p, ok := x.val.(*PtrV); ok && p != nil && p.obj != nil {
+				return in.goValue(p.obj.slots[p.off])
+			}
+		}
+		return in.goValue(x.val)
+	case *SliceV:
+		var out []interface{}
+		for i := 0; i < x.len; i++ {
+			if x.esz == 1 {
+				out = append(out, in.goValue(x.obj.slots[x.off+i]))
+			}
+		}
+		return out
 	}
+	return formatted("<v>")
+}
+
+// formatted prints itself verbatim under every verb
+type formatted string
+
+func (f formatted) Format(s fmt.State, verb rune) { fmt.Fprint(s, string(f)) }
+
+func (in *Interp) sprint(name string, args []Value) Value {
+	// formatting is environment; concrete operands are rendered exactly as fmt would
+	var vals []interface{}
 	start := 0
+	format := ""
 	if name != "fmt.Sprint" && name != "fmt.Sprintln" {
-		walk(args[0])
-		sb.WriteString("|")
+		if f, ok := args[0].(StrV); ok {
+			format = string(f)
+		}
 		start = 1
 	}
 	for _, a := range args[start:] {
 		if sl, ok := a.(*SliceV); ok {
 			for i := 0; i < sl.len; i++ {
-				walk(sl.obj.slots[sl.off+i])
+				vals = append(vals, in.goValue(sl.obj.slots[sl.off+i]))
 			}
 		}
 	}
-	return StrV(sb.String())
+	switch name {
+	case "fmt.Sprint":
+		return StrV(fmt.Sprint(vals...))
+	case "fmt.Sprintln":
+		return StrV(fmt.Sprintln(vals...))
+	}
+	return StrV(fmt.Sprintf(format, vals...))
 }
 
 func (in *Interp) stringsCall(name string, args []Value) []Value {
@@ -645,6 +697,20 @@ func (in *Interp) stringsCall(name string, args []Value) []Value {
 		return []Value{in.ts.Bool(strings.HasPrefix(s0, string(args[1].(StrV))))}
 	case "strings.ToLower":
 		return []Value{StrV(strings.ToLower(s0))}
+	case "strings.ToUpper":
+		return []Value{StrV(strings.ToUpper(s0))}
+	case "strings.TrimSpace":
+		return []Value{StrV(strings.TrimSpace(s0))}
+	case "strings.LastIndex":
+		return []Value{in.ts.IntConst64(in.intSort(), int64(strings.LastIndex(s0, string(args[1].(StrV)))))}
+	case "strings.Index":
+		return []Value{in.ts.IntConst64(in.intSort(), int64(strings.Index(s0, string(args[1].(StrV)))))}
+	case "strings.HasSuffix":
+		return []Value{in.ts.Bool(strings.HasSuffix(s0, string(args[1].(StrV))))}
+	case "strings.TrimPrefix":
+		return []Value{StrV(strings.TrimPrefix(s0, string(args[1].(StrV))))}
+	case "strings.TrimSuffix":
+		return []Value{StrV(strings.TrimSuffix(s0, string(args[1].(StrV))))}
 	}
 	sl := args[0].(*SliceV)
 	var parts []string
